@@ -7,7 +7,7 @@ namespace O2o
 /-- an instruction is relevant to counterpart `ty` when it is a default one or dedicated to `ty` -/
 def relevantTo (ty : TypePath) (c : Option TypePath) : Bool := c.isNone || isSomeEq c ty
 
-theorem find?_filter' {α} (xs : List α) (p q : α → Bool) :
+theorem find_filter_and {α} (xs : List α) (p q : α → Bool) :
     (xs.filter p).find? q = xs.find? (fun x => p x && q x) := by
   induction xs with
   | nil => rfl
@@ -24,7 +24,7 @@ theorem find?_filter' {α} (xs : List α) (p q : α → Bool) :
 theorem findDedicatedOrDefault_filter {α} (xs : List α) (ok : α → Bool) (cty : α → Option TypePath) (ty : TypePath) :
     findDedicatedOrDefault (xs.filter fun x => relevantTo ty (cty x)) ok cty ty = findDedicatedOrDefault xs ok cty ty := by
   unfold findDedicatedOrDefault
-  rw [find?_filter', find?_filter']
+  rw [find_filter_and, find_filter_and]
   have e1 : (fun x => relevantTo ty (cty x) && (ok x && isSomeEq (cty x) ty)) = (fun x => ok x && isSomeEq (cty x) ty) := by
     funext x
     unfold relevantTo
